@@ -223,6 +223,55 @@ pub fn coherence_part(opts: &Opts, rep: &mut Report) {
                 }
             }
         }
+        // the character immediately followed by its own image, where the image is itself moved again (U+212B, U+00E5): every
+        // site has to normalize the second character on its own account, whatever it just did for the first
+        if moved {
+            for ci in 0..4usize {
+                let cfg = RCfg {
+                    ignore_case: ci & 1 != 0,
+                    normalize: ci & 2 != 0,
+                    bonus: BonusCfg::Default,
+                    prefer_prefix: false,
+                };
+                let img = ref_norm(c, &cfg);
+                let img2 = ref_norm(img, &cfg);
+                if img == c || img2 == img {
+                    continue;
+                }
+                for (hay, needle) in [
+                    (vec![fill[0], c, img, fill[1]], vec![ref_norm(fill[0], &cfg), img2]),
+                    (vec![fill[0], c, img, fill[1]], vec![img2, ref_norm(fill[1], &cfg)]),
+                    (vec![c, img, fill[1], fill[2]], vec![img, img2]),
+                    (vec![fill[0], img, c, fill[1]], vec![img2, img]),
+                ] {
+                    if needle.iter().any(|&x| ref_norm(x, &cfg) != x && x != img) {
+                        continue;
+                    }
+                    if needle.iter().any(|&x| ref_norm(x, &cfg) != x) {
+                        // a needle holding the image itself is outside "already normalized" for the positive direction
+                        continue;
+                    }
+                    let case = Case {
+                        hay: Text::new(hay),
+                        needle: Text::new(needle),
+                        cfg,
+                        profile: "coherence-adjacent-pair",
+                    };
+                    rep.count("cases");
+                    rep.count("c16.adjacent-pair-probes");
+                    let mut ev = Eval {
+                        rep,
+                        props: &props,
+                        matcher: &mut matcher,
+                        case_id: format!("U+{u:04X}"),
+                        believed: None,
+                        attribute_to: Some("C16"),
+                    };
+                    eval_case(&mut ev, &mut rng, &case, false, case.needle.ascii);
+                    eval_case(&mut ev, &mut rng, &case, false, false);
+                }
+            }
+        }
         // the image of a character that is itself moved again (the composed projection is not idempotent for a few dozen
         // characters: U+1E9E -> U+00DF -> s): a haystack that holds the image *raw* must not match a needle holding the image,
         // at any site that filters, scans or compares (the sites that do not touch the needle are probed: fuzzy, greedy, substring)
